@@ -193,8 +193,8 @@ theorem productiveSet_sound (B : NT) (h : (productiveSet G).getD B false = true)
   intro C hC
   rw [List.getD_eq_getElem?_getD] at hC
   by_cases hlt : C < G.nNT
-  · simp [List.getElem?_replicate, hlt] at hC
-  · simp [List.getElem?_replicate, hlt] at hC
+  · simp [hlt] at hC
+  · simp [hlt] at hC
 
 theorem prodOK_of_check {A : Automaton} (h : checkProductive G A = true) :
     ProdOK G A (fun B => (reachSet G).getD B false = true) := by
